@@ -23,17 +23,13 @@
 From Coq Require Import List NArith ZArith Bool.
 Import ListNotations.
 Require Import Base.Wire Base.PyStr.
+Require Export C18.Names.
+Require C18.PModel.
 Require gen.T18.
 Open Scope Z_scope.
 
 (* ---- names, arguments, actions ---- *)
-Inductive name := Auto (c : N) | Named (k : N).   (* int from self.counter | user string *)
-Definition name_eqb (a b : name) : bool :=
-  match a, b with
-  | Auto x, Auto y => N.eqb x y
-  | Named x, Named y => N.eqb x y
-  | _, _ => false
-  end.
+(* name := Auto c | Named k  and name_eqb: C18/Names.v *)
 
 Definition argv : Type := (list N * list (N * N))%type.     (* args, kwargs *)
 Definition noargs : argv := ([], []).
@@ -310,8 +306,6 @@ Fixpoint run_ops (fuel : nat) (ops : list op) (s : state) : state :=
 
 (* ---- wire ---- *)
 Definition vZ (z : Z) : value := I z.
-Definition vName (n : name) : value :=
-  match n with Auto c => L [I 0; vN c] | Named k => L [I 1; vN k] end.
 Definition vArgv (a : argv) : value :=
   L [L (map vN (fst a)); L (map (fun kv => L [vN (fst kv); vN (snd kv)]) (snd a))].
 Definition vEntry (e : entry) : value := L [vZ (e_t e); vName (e_name e); vArgv (e_args e)].
@@ -321,8 +315,6 @@ Definition vUnit (_ : unit) : value := L [].
 Definition vSnap (r : res unit) (s : state) : value :=
   L [vR vUnit r; L (map vEntry (heap s)); L (map (fun kf => vName (fst kf)) (events s)); vN (counter s); vZ (now s)].
 
-Definition gName (v : value) : name :=
-  match gN (nth_v 0 v) with 0%N => Auto (gN (nth_v 1 v)) | _ => Named (gN (nth_v 1 v)) end.
 Definition gArgv (a k : value) : argv :=
   (map gN (gL a), map (fun kv => (gN (nth_v 0 kv), gN (nth_v 1 kv))) (gL k)).
 Definition gON (v : value) : option N := gO gN v.
@@ -360,10 +352,17 @@ Fixpoint run_snaps (fuel : nat) (ops : list op) (s : state) : state * list value
   end.
 
 (* run: (fuel oracle ops) -> (snapshots calls pops (obad fuelout)) *)
-Definition run (v : value) : value :=
+Definition run_sched (v : value) : value :=
   let fuel := N.to_nat (gN (nth_v 0 v)) in
   let o := map gName (gL (nth_v 1 v)) in
   let ops := map gOp (gL (nth_v 2 v)) in
   let '(s, snaps) := run_snaps fuel ops (init o) in
   L [L snaps; L (map vCall (rev (calls s))); L (map vPop (rev (pops s)));
      L [vB (obad s); vB (fuelout s)]; vN (N.of_nat (length (oracle s)))].
+
+(* dispatcher: ((p) plugin-history) goes to the Scheduler-plugin model (PModel.v), (fuel oracle ops) to the scheduler model *)
+Definition run (v : value) : value :=
+  match nth_v 0 v with
+  | L _ => C18.PModel.prun (nth_v 1 v)
+  | I _ => run_sched v
+  end.
